@@ -56,7 +56,7 @@ def M(cmd, obj="", run="", a="", **kw):
     return m
 
 
-DEVICES = {"det": {"type": "Det", "motors": ["motor"]}, "det2": {"type": "Det"}, "pdet": {"type": "Paus"},
+DEVICES = {"amotor": {"type": "AMotor"}, "apdet": {"type": "APaus"}, "det": {"type": "Det", "motors": ["motor"]}, "det2": {"type": "Det"}, "pdet": {"type": "Paus"},
            "motor": {"type": "Motor"}, "motor2": {"type": "Motor"}, "mon1": {"type": "Mon"}}
 
 _point = [M("create", a="primary"), M("read", "det"), M("save")]
@@ -70,6 +70,13 @@ PROGRAMS = {
                       M("trigger", "det", a="g2"), M("wait", a="g2"), M("create", a="primary"), M("read", "det"),
                       M("read", "motor"), M("save"), M("close_run"), M("unstage", "det")],
              "kind": "finalize", "try": [2, 11], "cleanup": [12, 13]},
+    # ophyd-async style devices: stop()/pause()/resume() are coroutines that really suspend
+    "amove": {"msgs": [M("stage", "det"), M("open_run"), M("checkpoint"), M("set", "amotor", a="g1"), M("wait", a="g1"),
+                       M("trigger", "apdet", a="g2"), M("wait", a="g2"), M("create", a="primary"), M("read", "apdet"),
+                       M("save"), M("close_run"), M("unstage", "det")],
+              "kind": "finalize", "try": [2, 10], "cleanup": [11, 12]},
+    "aopen": {"msgs": [M("open_run"), M("checkpoint"), M("set", "amotor", a="g1"), M("wait", a="g1"), M("create", a="primary"), M("read", "apdet"),
+                       M("save"), M("null")]},     # run left open: closed by the engine's clean-up (which awaits amotor.stop())
     "mon": {"msgs": [M("open_run"), M("monitor", "mon1"), M("checkpoint"), M("sleep")] + _point +
                     [M("unmonitor", "mon1"), M("close_run")]},
     "monleft": {"msgs": [M("open_run"), M("monitor", "mon1"), M("checkpoint")] + _point + [M("close_run"), M("null")],
@@ -115,8 +122,9 @@ PROGRAMS = {
                           M("unmonitor", "mon1", run="k1"), M("close_run", run="k1"), M("close_run", run="k2")]},
     "cfginb": {"msgs": [M("open_run"), M("checkpoint"), M("create", a="primary"), M("read", "det"), M("configure", "det"), M("save"), M("close_run")]},
 }
+ASYNC_PLANS = {"amove", "aopen"}      # devices whose stop()/pause()/resume() are coroutines that really suspend
 MULTI_RUN_PLANS = {"multi", "multimon", "dupopen"}
-NOT_CONFORMANCE = {"cfg", "cfginb", "cfgdrop", "multimon"}        # use commands RE.tla does not model (yet): monitored only
+NOT_CONFORMANCE = {"amove", "aopen", "cfg", "cfginb", "cfgdrop", "multimon"}        # use commands RE.tla does not model (yet): monitored only
 
 BUILTINS = {
     "count": {"builtin": "count", "args": {"dets": ["det"], "num": 2}},
@@ -273,7 +281,7 @@ PROJECTIONS = {
 TRACE_CFG_CONSTS = {
     "RunKeys": {"", "k1", "k2"},
     "Streams": {"primary", "baseline", "interruptions", "mon1"},
-    "Dets": {"det", "det2", "pdet"}, "Motors": {"motor", "motor2"}, "Mons": {"mon1"}, "Pausables": {"pdet"}, "Flyers": set(),
+    "Dets": {"det", "det2", "pdet", "apdet"}, "Motors": {"motor", "motor2", "amotor"}, "Mons": {"mon1"}, "Pausables": {"pdet", "apdet"}, "Flyers": set(),
     "ReadVal": "<- ReadValDef", "DataKeys": "<- DataKeysDef", "FutNames": {"f1", "f2"},
     "StreamOrder": "<- StreamOrderDef", "DevOrder": "<- DevOrderDef", "PlanLib": "<- PlanLibDef",
 }
@@ -415,7 +423,7 @@ def corpus_spec(tier):
     """the list of sweeps that make up the corpus"""
     quick = tier == "quick"
     sweeps = []
-    progs = ["simple", "two", "fin", "move", "mon", "multi", "defer", "norew", "paus", "err", "openonly",
+    progs = ["simple", "two", "fin", "move", "mon", "multi", "defer", "norew", "paus", "err", "openonly", "amove", "aopen",
              "selfpause", "selfpause_nores", "selfdefer_nores", "norew_save"]
     kinds = REQ_KINDS
     if quick:
@@ -835,7 +843,7 @@ def check_property(ctx, prop, proj="full", extra_rule=""):
     for i, tags, reqs in mon["pv"]:
         for tag in tags:
             if (pred(tag, traces[i]["id"]) if prop == "C14" else pred(tag)):
-                s = signature(tag, reqs)
+                s = signature(tag, reqs) + ("~async" if traces[i]["id"].split("|")[0] in ASYNC_PLANS else "")
                 seen_classes.add(sig_class(s))
                 t = traces[i]
                 ctx.violation(s, f"{tag} on implementation trace {t['id']} (outcomes {t['outcomes']})",
